@@ -190,7 +190,42 @@ def run_case(ctx, case):
         if got.data.shape != want.data.shape or not err <= TOL:
             ctx.violation('alias:%s:same-object:value' % op, {'op': op, 'D': D, 'P': P, 'shape': shape, 'err': err}); return
         ctx.ok('alias:' + op, ('bin', op, D, P, shape), noise=err)
+        # two different views of one buffer that start at the same element (first row and first column of a matrix, a vector and
+        # every second element of it): not the same operand, whatever their addresses say
+        if op in ('add', 'sub', 'mul', 'div', 'dot', 'outer', 'minimum', 'maximum') and len(shape) == 1:
+            n = shape[0]
+            big = gen.series_data(rng, D, P, (max(n, 2), 2 * max(n, 2)), dom, 'random', False, 0.5)
+            B = UTPM(big.copy())
+            for vk, (u, v, uc, vc) in (('row-and-column', (B[0, :n], B[:n, 0], big[:, :, 0, :n], big[:, :, :n, 0])),
+                                       ('vector-and-strided', (B[0, :n], B[0, :2 * n:2], big[:, :, 0, :n], big[:, :, 0, :2 * n:2]))):
+                try:
+                    got = BIN[op](u, v); want = BIN[op](UTPM(uc.copy()), UTPM(vc.copy()))
+                except Exception:
+                    ctx.skip('unsupported:alias:%s:%s' % (op, vk)); continue
+                err = float(np.max(np.abs(got.data - want.data)) / (np.max(np.abs(want.data)) + 1e-300)) if want.data.size else 0.0
+                if got.data.shape != want.data.shape or not err <= TOL or not np.array_equal(B.data, big):
+                    ctx.violation('alias:%s:%s:value' % (op, vk), {'op': op, 'alias': vk, 'D': D, 'P': P, 'shape': shape, 'err': err}); return
+                ctx.ok('alias:' + op, ('bin', op, vk, D, P, shape), noise=err)
         return
+    # the right operand is a plain array that is a view of the left operand's own coefficient storage (x op= x.data[0, 0]),
+    # or a lower-rank polynomial view of the left operand (x op= x[k]): same result as with an independent copy
+    if len(shape) >= 1:
+        for ak2 in ('constant-is-view-of-own-coefficients', 'right-is-row-of-left'):
+            x = UTPM(data.copy()); xc = UTPM(data.copy())
+            try:
+                if ak2.startswith('constant'):
+                    IOP[op](x, x.data[0, 0]); IOP[op](xc, data[0, 0].copy())
+                else:
+                    if len(shape) < 2:
+                        continue
+                    k_ = int(rng.integers(shape[0]))
+                    IOP[op](x, x[k_]); IOP[op](xc, UTPM(data[:, :, k_].copy()))
+            except Exception:
+                ctx.skip('unsupported:alias:%s:%s' % (op, ak2)); continue
+            err = float(np.max(np.abs(x.data - xc.data)) / (np.max(np.abs(xc.data)) + 1e-300)) if xc.data.size else 0.0
+            if not err <= TOL:
+                ctx.violation('alias:%s:%s:value' % (op, ak2), {'op': op, 'alias': ak2, 'D': D, 'P': P, 'shape': shape, 'err': err}); return
+            ctx.ok('alias:' + op, ('iop', op, ak2, D, P, shape), noise=err)
     for ak in ALIAS:
         if ak == 'transposed' and not (len(shape) == 2 and shape[0] == shape[1]):
             continue
